@@ -3,7 +3,8 @@
    sequence (begin, the left-side vertices in order, end, the right-side vertices in reverse
    order) and its shoelace sum (Model/Winding.v, anchored by C18). *)
 From Coq Require Import QArith.
-From LV Require Import Base.Prelude Model.Bezier Model.Winding Model.Monotone.
+From Coq Require Import Qminmax.
+From LV Require Import Base.Prelude Base.F32 Gen.Constants Model.Bezier Model.Winding Model.Monotone.
 Open Scope Q_scope.
 
 (* twice the signed area of the triangle (p, q, r) *)
@@ -76,3 +77,73 @@ Definition flush_area2 (right : bool) (pts : list qpt) : Q :=
   fold_right (fun x acc => let '(a, b, c) := x in
      area2 (nth a pts (0, 0)) (nth b pts (0, 0)) (nth c pts (0, 0)) + acc) 0
      (flush_index_tris right (length pts)).
+
+(* ------------------------------------------------------------------ the advanced tessellator over an arbitrary
+   basic step [mvx] (monotone_vertex itself, or its un-normalised variant): a copy of adv_vertex / adv_end /
+   adv_run of Model/Monotone.v with monotone_vertex replaced by the parameter *)
+Section AdvGen.
+Variable mvx : basic -> mv -> basic.
+
+Definition adv_vertex_gen (a : advanced) (pos : qpt) (id : Z) (left : bool) : advanced :=
+  let a1 :=
+    if left then
+      let l := set_ref_x (a_left a) (Qmax (px (se_ref (a_left a))) (px pos)) in
+      let l := set_cref l (Qmax (se_cref_x l) (px (se_ref l))) in
+      mkAdv (a_tess a) l (a_right a)
+    else
+      let r := set_ref_x (a_right a) (Qmin (px (se_ref (a_right a))) (px pos)) in
+      let r := set_cref r (Qmin (se_cref_x r) (px (se_ref r))) in
+      mkAdv (a_tess a) (a_left a) r in
+  let dx := se_cref_x (a_right a1) - se_cref_x (a_left a1) in
+  let '(side_ev, opp_ev) := if left then (a_left a1, a_right a1) else (a_right a1, a_left a1) in
+  let dy := py pos - py (se_ref side_ev) in
+  let sides_are_close := Qltb dx (f32_round (dy * f32_round sides_are_close_factor)) in
+  let len := length (se_events side_ev) in
+  let outward_turn :=
+    if negb sides_are_close && Nat.leb 2 len then
+      let sign := if left then 1 else - (1) in
+      let prev := se_prev side_ev in
+      let last := m_pos (se_last side_ev) in
+      Qltb (vcross (psub prev last) (psub pos last) * sign) 0
+    else false in
+  let '(side_ev, opp_ev, tess) :=
+    if outward_turn || sides_are_close then
+      let must_flush_opp := is_after (m_pos (se_last side_ev)) (m_pos (se_last opp_ev)) in
+      let '(side_ev, opp_ev, tess) :=
+        if must_flush_opp then
+          match flush_side opp_ev (negb left) (a_tess a1) with
+          | (opp', t', Some v) =>
+              (set_cref side_ev (px (se_ref side_ev)), opp', mvx t' v)
+          | (opp', t', None) => (side_ev, opp', t')
+          end
+        else (side_ev, opp_ev, a_tess a1) in
+      match flush_side side_ev left tess with
+      | (side', t', Some v) =>
+          (side', set_cref opp_ev (px (se_ref opp_ev)), mvx t' v)
+      | (side', t', None) => (side', opp_ev, t')
+      end
+    else (side_ev, opp_ev, a_tess a1) in
+  let side_ev :=
+    set_ref_x side_ev (if left then Qmax (px (se_ref side_ev)) (px pos) else Qmin (px (se_ref side_ev)) (px pos)) in
+  let side_ev := se_push side_ev (mkMV pos id left) in
+  if left then mkAdv tess side_ev opp_ev else mkAdv tess opp_ev side_ev.
+
+Definition adv_end_gen (a : advanced) (pos : qpt) (id : Z) : basic :=
+  let '(l, t1, va) := flush_side (a_left a) true (a_tess a) in
+  let '(r, t2, vb) := flush_side (a_right a) false t1 in
+  let t3 :=
+    match va, vb with
+    | Some v, None | None, Some v => mvx t2 v
+    | Some v1, Some v2 =>
+        let '(v1, v2) := if is_after (m_pos v1) (m_pos v2) then (v2, v1) else (v1, v2) in
+        mvx (mvx t2 v1) v2
+    | None, None => t2
+    end in
+  let t' := mvx t3 (mkMV pos id (negb (m_left (b_prev t3)))) in
+  mkBasic [] (b_prev t') (b_tris t').
+
+Definition adv_run_gen (first : qpt * Z) (vs : list (qpt * Z * bool)) (last : qpt * Z) : list tri :=
+  let a := fold_left (fun a v => adv_vertex_gen a (fst (fst v)) (snd (fst v)) (snd v)) vs
+                     (adv_begin (fst first) (snd first)) in
+  b_tris (adv_end_gen a (fst last) (snd last)).
+End AdvGen.
